@@ -312,6 +312,30 @@ int main(int argc, char **argv)
 				goto out;
 		}
 	}
+	/* FIBFREQ: byte values (and, through runs, match lengths) with Fibonacci frequencies, shuffled: the per-block Huffman trees the
+	 * encoder builds for ITS OWN histograms at levels 1-3 exceed 15 levels and must be length-limited; variants with 18..30 symbols */
+	for (int k = 0; k < (v_thorough ? 6 : 3); k++) {
+		uint64_t id = unit++;
+		if (!v_mine(id))
+			continue;
+		int nsym = 18 + k * 2 + (k > 3 ? 2 : 0), len = 0;
+		uint64_t a = 1, b = 1, rs = 0x1234567 + k;
+		for (int i = 0; i < nsym && len < MAXIN - 300000; i++) {
+			for (uint64_t c = 0; c < a && len < MAXIN - 300000; c++) {
+				inbuf[len++] = (uint8_t)(0x30 + i * 5);
+				if (k & 1 && c % 97 == 96) /* every now and then a run: length symbols join the skew */
+					for (int r = 0; r < 3 + (int)(c % 250) && len < MAXIN - 300000; r++)
+						inbuf[len++] = (uint8_t)(0x30 + i * 5);
+			}
+			uint64_t t = a + b; a = b; b = t;
+		}
+		for (int i = len - 1; i > 0; i--) { /* shuffle (runs are broken up on purpose only for the even variants) */
+			rs = v_mix(rs, i);
+			if (!(k & 1)) { int j = (int)(rs % (uint64_t)(i + 1)); uint8_t t = inbuf[i]; inbuf[i] = inbuf[j]; inbuf[j] = t; }
+		}
+		snprintf(in_name, sizeof in_name, "fibfreq:%d-symbols:%d%s", nsym, len, k & 1 ? ":with-runs" : "");
+		sweep(id, len, len > 8000, len > 8000 ? 1 : 0);
+	}
 	/* FARMIX: back-to-back far matches of assorted lengths (widest encoded symbols); levels 1-3 matter, every CPU level */
 	for (int k = 0; k < (v_thorough ? 6 : 1); k++) {
 		uint64_t id = unit++;
